@@ -399,102 +399,102 @@ def c05(ctx):
 SPECS = {
     "C05": {"fn": c05, "level": "exploration",
             "technique": "runtime monitoring at process boundaries under the race detector: offline checker over a monotonic event log written by scriptable helper peers (exactly-once dispatch, matching and alive server, overlap bound, cleanup) plus the runner's output, against the selection computed by independent models",
-            "text": "The race-built runner is executed with helper peers that log, at their own boundary, every ServerCompatRequest, ClientCompatRequest and arriving RPC; the checker requires the multiset of issued permutations to equal the independently computed selection (minus those whose server was scripted not to start, which must be reported), each request to address a live server whose logged configuration equals the permutation's axes (probed by TCP/TLS/QUIC handshake or observed by the very instance that received the RPC), the test-name header, at most --max-servers overlapping server lifetimes, a stop for every started server and termination. Dedicated scenarios let one server instance end on its own (exit status 0 and non-zero) in the middle of a large TLS batch whose hand-over is paced by a slow-reading helper client: the bytes handed to the client after the logged exit must not exceed what the stdin pipe (capacity logged by the client) could already hold, and every permutation is either handed over once or reported. The check is inconclusive unless client-certificate permutations were actually dispatched and checked.",
+            "text": "The race-built runner is executed with helper peers that log, at their own boundary, every ServerCompatRequest, ClientCompatRequest and arriving RPC; the checker requires the multiset of issued permutations to equal the independently computed selection (minus those whose server was scripted not to start, which must be reported), each request to address a live server whose logged configuration equals the permutation's axes (probed by TCP/TLS/QUIC handshake or observed by the very instance that received the RPC), the test-name header, at most --max-servers overlapping server lifetimes, a stop for every started server and termination. Dedicated scenarios let one server instance end on its own (exit status 0 and non-zero) in the middle of a large TLS batch whose hand-over is paced by a slow-reading helper client: the bytes handed to the client after the logged exit must not exceed what the stdin pipe (capacity logged by the client) could already hold, and every permutation is either handed over once or reported. The check is inconclusive unless client-certificate permutations were actually dispatched and checked. Further scenarios: helper servers that ignore SIGTERM (process lifetimes sampled from /proc: none may outlive the run, never more than --max-servers alive at once), raw-request suites in server mode (test name header also on raw requests), and client mode, where a slow helper client dials every server address it has been told so far at each request: never more than --max-servers in-process servers may accept connections (reference and grpc-go passes together).",
             "note": "Interleavings of the batch goroutines are sampled by varying --max-servers, GOMAXPROCS and peer latencies; alive intervals are logged subsets of real lifetimes (the bound check cannot raise a false alarm).",
             "assumptions": ["CLOCK_MONOTONIC is shared by all processes of a run", "model_*_test.go compute the selected set"]},
     "C04": {"fn": c04, "level": "exploration",
             "technique": "runtime monitoring: truth-table oracle over (a) the real testResults driven through its entry points from concurrent goroutines and (b) the real runner binary with scripted helper peers realising each outcome kind; observed: report() value / process exit status, FAILED and INFO lines, summary totals",
-            "text": "Every assignment of outcome kind x marking x feedback to 1-2 cases (3 cases stratified/complete) and random assignments to 4-12 cases are applied to the real results object and the printed report is compared with the truth table (verdict, naming of every failing case, accounting of every case exactly once). The same rows are realised end to end with the real binary and a scripted client/server (verifpeer). A further process-level scenario lets a helper server exit (status 0 and non-zero) in the middle of a batch of several hundred cases that are all marked known-failing: the run must fail and the cases that were never handed to a client must be reported.",
+            "text": "Every assignment of outcome kind x marking x feedback to 1-2 cases (3 cases stratified/complete) and random assignments to 4-12 cases are applied to the real results object and the printed report is compared with the truth table (verdict, naming of every failing case, accounting of every case exactly once). The same rows are realised end to end with the real binary and a scripted client/server (verifpeer). A further process-level scenario lets a helper server exit (status 0 and non-zero) in the middle of a batch of several hundred cases that are all marked known-failing: the run must fail and the cases that were never handed to a client must be reported. A client-fate part composes the real clientProcessRunner, runTestCasesForServer, closeSend, waitForResponses and report() exactly as run() does, with an in-process client that reads r and answers k of n requests and then ends cleanly or with an error.",
             "note": "For could-not-run / no-outcome rows the success verdict is taken at the process level only (report() && err == nil).",
             "assumptions": ["truth table of DESIGN.md C04"]},
     "C02": {"fn": c02, "level": "exploration",
             "technique": "runtime monitoring end to end: seeded generator of well-formed test cases run through the real runner against the real reference and gRPC peers in every mode; the runner's per-permutation verdict and peer feedback are the observation; in-process crash monitor (recover + input on disk) for suite loading",
-            "text": "Generated cases (deterministic fragment of the schema) are expanded by the real runner over the full shipped matrix and executed against the reference server, the reference client, both as external processes, and the grpc-go peers; any FAILED line, feedback or crash is a disagreement between the derived expectation and the peers; each failure class is re-run alone twice before it counts. 10^4-10^5 arbitrary parseable suites are fed to parseTestSuites/newTestCaseLibrary and must yield an error or a library, never a panic.",
+            "text": "Generated cases (deterministic fragment of the schema) are expanded by the real runner over the full shipped matrix and executed against the reference server, the reference client, both as external processes, and the grpc-go peers; any FAILED line, feedback or crash is a disagreement between the derived expectation and the peers; each failure class is re-run alone twice before it counts. 10^4-10^5 arbitrary parseable suites are fed to parseTestSuites/newTestCaseLibrary and must yield an error or a library, never a panic. Later messages may carry decoy response definitions (servers read the definition from the first message only) and header values include empty list elements.",
             "note": "Excluded from the fragment (protocol limits): header values with leading/trailing whitespace or non-visible bytes, error messages with leading/trailing space, two Header entries with the same name, details of unknown types. Zero-request client/bidi streams run in suite files of their own because grpc-go never delivers EOF for them (known third-party finding).",
             "assumptions": ["the runner's per-case verdict (subject of C03/C04)"]},
     "C01": {"fn": c01, "level": "exploration",
             "technique": "runtime monitoring of the real binaries end to end (also race-built): the runner's printed verdicts, totals and expected-failure lines are checked by an offline oracle against the permutation set computed by independent models; failing permutations are re-run in isolation before being called deviations",
-            "text": "The five `make runconformance` invocations are executed with binaries built from the tree; the oracle requires zero unexpected failures, an expected-failure set exactly equal to what the shipped known-failing lists match, totals that add up, and a case count equal to the number of permutations the independent config/suite/filter models derive from the same YAML. Quick covers everything except the two message-size suites on the full matrix (those run on HTTP/2 x {identity, gzip} x cleartext) plus a race-built pass; thorough enumerates the whole space and adds race-built runs with --max-servers 1 and 8.",
+            "text": "The five `make runconformance` invocations are executed with binaries built from the tree; the oracle requires zero unexpected failures, an expected-failure set exactly equal to what the shipped known-failing lists match, totals that add up, and a case count equal to the number of permutations the independent config/suite/filter models derive from the same YAML. Quick covers everything except the two message-size suites on the full matrix (those run on HTTP/2 x {identity, gzip} x cleartext) plus a race-built pass; thorough enumerates the whole space and adds race-built runs with --max-servers 1 and 8. The quick tier runs the two message-size suites on HTTP/2 without TLS under every protocol, codec and compression (the thorough tier runs everything).",
             "note": "Load-dependent failures (timing suites, QUIC accept backlog) are re-run alone twice and only deterministic failures count; grpc-web-client-impl-config.yaml needs a browser-driven client and is not run.",
             "assumptions": ["loopback networking incl. UDP for HTTP/3 works in the sandbox", "the runner's per-case verdict is itself the subject of C03/C04"]},
     "C17": {"fn": c17, "level": "exploration",
             "technique": "runtime monitoring on the wire: plain HTTP/1.1 and h2c client against the real reference server, plain capturing server against the real reference client, random raw-payload definitions; oracle = independent encoder/decoder of the definition",
-            "text": "Random RawHTTPResponse definitions are attached to unary, client-stream, server-stream and bidi requests sent to the real reference server over HTTP/1.1 and h2c; the observed status, headers, trailers and body bytes must equal an independent encoding of the definition and contain nothing the handler would have produced. Random RawHTTPRequest definitions are sent by the real reference client to a capturing server. WriteRawMessageContents/WriteRawStreamContents are checked to be invertible by independent decoders.",
+            "text": "Random RawHTTPResponse definitions are attached to unary, client-stream, server-stream and bidi requests sent to the real reference server over HTTP/1.1 and h2c; the observed status, headers, trailers and body bytes must equal an independent encoding of the definition and contain nothing the handler would have produced. Random RawHTTPRequest definitions are sent by the real reference client to a capturing server. WriteRawMessageContents/WriteRawStreamContents are checked to be invertible by independent decoders. Raw responses also use one field name in headers and trailers, and trailers named like well-known headers (judged over HTTP/1.1); raw requests also declare their own Content-Length under any spelling and use percent-escapes in the path, which must reach the server as written.",
             "note": "Infrastructure headers (CORS, Vary, Trailer, transfer coding, Content-Length, sniffed Content-Type) are whitelisted; 1xx/204/304 statuses are not generated (HTTP forbids a body).",
             "assumptions": ["net/http and x/net/http2 as observer of the wire"]},
     "C19": {"fn": c19, "level": "exploration",
             "technique": "runtime monitoring: invariant oracle on the real expandRequestData (size == limit+delta, only the padding field differs, else error) over enumerated offsets around every varint boundary; crafted third-party peers exchange messages of exact serialized size limit-1/limit/limit+1 with the real reference server and client",
-            "text": "expandRequestData is run for all five message types, several contents and every offset in windows around zero and around each length-varint growth point; the result must be exactly limit+delta bytes with nothing but request_data changed, or an error - never a panic. Sharpness is observed on the wire: messages of exactly limit-1, limit and limit+1 serialized bytes under every protocol and compression against the real reference server (and reference client for responses). Limits include the runner's own 200 KiB (server) and 1 MiB (client) values; client streams are also sent after a first message that configures an error response.",
+            "text": "expandRequestData is run for all five message types, several contents and every offset in windows around zero and around each length-varint growth point; the result must be exactly limit+delta bytes with nothing but request_data changed, or an error - never a panic. Sharpness is observed on the wire: messages of exactly limit-1, limit and limit+1 serialized bytes under every protocol and compression against the real reference server (and reference client for responses). Limits include the runner's own 200 KiB (server) and 1 MiB (client) values; client streams are also sent after a first message that configures an error response. The loader is exercised with suite files whose directives sit in suites with and without the receive-limit flag (fields other than the padding field must be as written), a buffered multi-message body with a declared Content-Length must be accepted when every message is within the limit, and Connect GET requests at limit-1/limit/limit+1 are sent with the message in the URL.",
             "note": "connect-go compares the compressed envelope with the limit before decompressing: messages whose compressed form exceeds the limit while the uncompressed size does not are rejected by the library (known finding, third-party).",
             "assumptions": ["proto.Size is the serialized size", "connect-go (no limit configured) as crafted peer"]},
     "C13": {"fn": c13, "level": "exploration",
             "technique": "runtime monitoring: the reference client's real wire-capture + trace + examineWireDetails chain observed on synthetic and real responses; spec-written independent encoders and the reference server's own encoders supply well-formed inputs, one-malformation-at-a-time generators and seeded structure-aware fuzzing supply bad ones",
-            "text": "Thousands of errors (all codes, hostile messages, details, metadata) are rendered as Connect error JSON, Connect end-stream, gRPC-Web trailer blocks and gRPC trailers by an independent spec encoder and by the reference server's own encoder functions, and pushed through the real capture/trace/examine chain: no feedback is allowed. Each malformation class the checks name is injected alone and must produce feedback. 10^4-10^5 mutated/random inputs must not panic. Each examined response is delivered through a rotating transport variant (single read, 1/3/7-byte reads, end-of-stream message gzip-compressed in the negotiated encoding, trailers-only response that announces trailer names it never sends); the verdict must not depend on it.",
+            "text": "Thousands of errors (all codes, hostile messages, details, metadata) are rendered as Connect error JSON, Connect end-stream, gRPC-Web trailer blocks and gRPC trailers by an independent spec encoder and by the reference server's own encoder functions, and pushed through the real capture/trace/examine chain: no feedback is allowed. Each malformation class the checks name is injected alone and must produce feedback. 10^4-10^5 mutated/random inputs must not panic. Each examined response is delivered through a rotating transport variant (single read, 1/3/7-byte reads, end-of-stream message gzip-compressed in the negotiated encoding, trailers-only response that announces trailer names it never sends); the verdict must not depend on it. Debug data in google.protobuf.Any form with multi-segment type URLs, numbered code names (code_N) and folded or blank first lines of trailer blocks are among the classes.",
             "note": "Messages with leading/trailing whitespace are excluded (HTTP field parsing trims them; gRPC does not escape 0x20) - a protocol limit; live wire output of the reference server is covered by C01/C02 feedback (any feedback line fails those runs).",
             "assumptions": ["the spec encoder in harness/refserver/c13_wire_test.go follows the Connect and gRPC protocol documents"]},
     "C15": {"fn": c15, "level": "exploration",
             "technique": "runtime monitoring under the race detector: scripted inner net.Conn (every Read/Write result logged) around the real TracingHTTP2Conn; generated multi-stream HTTP/2 exchanges re-interleaved and re-partitioned, compared with an independent per-stream trace model; seeded structure-aware mutation and ordering faults for the no-crash/transparency clause",
-            "text": "Well-formed exchanges (1-6 concurrent streams, HEADERS/CONTINUATION, DATA cutting envelopes anywhere, request/response trailers, RST_STREAM from either side, REFUSED_STREAM+retry, GOAWAY, shared HPACK state) are fed through the real connection tracer on client and server side under 4 schedules and random Read/Write partitions; each named stream must yield exactly one trace equal to the model (request line, own headers, messages in order, status, trailers, end/reset). 10^4-10^6 mutated, random and mis-ordered streams must never panic and every Read/Write must return exactly what the inner conn did. The last bytes of a connection are also delivered together with io.EOF, and a retry-timer part drives the 3 s hold-back of refused streams with real, generously spaced delays (double refusal chain, retry followed by silence, refusal never retried); schedules stretched by the machine are inconclusive. A real-traffic part runs golang.org/x/net/http2's own Transport and Server over loopback TCP with the tracer wrapped around both connection ends (concurrent calls, messages beyond the flow-control window, handler aborts, client cancels) and requires, on both sides, exactly one trace per call whose message events equal the messages the applications exchanged.",
+            "text": "Well-formed exchanges (1-6 concurrent streams, HEADERS/CONTINUATION, DATA cutting envelopes anywhere, request/response trailers, RST_STREAM from either side, REFUSED_STREAM+retry, GOAWAY, shared HPACK state) are fed through the real connection tracer on client and server side under 4 schedules and random Read/Write partitions; each named stream must yield exactly one trace equal to the model (request line, own headers, messages in order, status, trailers, end/reset). 10^4-10^6 mutated, random and mis-ordered streams must never panic and every Read/Write must return exactly what the inner conn did. The last bytes of a connection are also delivered together with io.EOF, and a retry-timer part drives the 3 s hold-back of refused streams with real, generously spaced delays (double refusal chain, retry followed by silence, refusal never retried); schedules stretched by the machine are inconclusive. A real-traffic part runs golang.org/x/net/http2's own Transport and Server over loopback TCP with the tracer wrapped around both connection ends (concurrent calls, messages beyond the flow-control window, handler aborts, client cancels) and requires, on both sides, exactly one trace per call whose message events equal the messages the applications exchanged. Real traffic also covers asymmetric HPACK table sizes (only one endpoint advertises 64 KB and its peer's encoder uses it) with sizeable headers; a listener part interleaves two connections accepted from one TracingHTTP2Listener, one of which ends while the other is between a refusal and its retry.",
             "note": "Real grpc-go traffic through the tracer is exercised by C01's --trace runs on race-built binaries; a stream cut exactly after an envelope prefix may or may not report a zero-length partial event.",
             "assumptions": ["x/net/http2 Framer and hpack encoder generate well-formed frames"]},
     "C11": {"fn": c11, "level": "fault_enumeration",
             "technique": "runtime monitoring under the race detector: fault enumeration over the real runTestCasesForServer with a scripted server process (every byte-offset truncation of its response, write/close errors, exit after k sends, stall) and a scripted client runner; oracle over results.outcomes at quiescence",
-            "text": "The real runTestCasesForServer is run against scripted processStarter/process/clientRunner objects; server faults are enumerated over every position (each byte offset of the response, each k of n sends, each stdin offset sampled) and combined with client faults and answer kinds delivered before, during and after the server's death; the oracle checks one outcome per case, verdict preservation for answered cases (token-tagged), setup errors for the rest, abort on every started process, stderr attribution and bounded termination. Real OS-process servers that answer the handshake and then ignore SIGTERM (idle, or writing to stderr) must not keep the batch from returning; answered cases keep their verdict.",
+            "text": "The real runTestCasesForServer is run against scripted processStarter/process/clientRunner objects; server faults are enumerated over every position (each byte offset of the response, each k of n sends, each stdin offset sampled) and combined with client faults and answer kinds delivered before, during and after the server's death; the oracle checks one outcome per case, verdict preservation for answered cases (token-tagged), setup errors for the rest, abort on every started process, stderr attribution and bounded termination. Real OS-process servers that answer the handshake and then ignore SIGTERM (idle, or writing to stderr) must not keep the batch from returning; answered cases keep their verdict. (The stderr reader's last, unterminated line and SIGTERM-ignoring server commands are part of the enumeration.)",
             "note": "Checked at quiescence (the call returned and every accepted callback fired - the server-death path returns without waiting for in-flight requests); an empty but well-formed server response is not treated as a fault.",
             "assumptions": ["progress bound 75 s", "the scripted client runner fires each accepted callback exactly once, as C10 establishes for the real one"]},
     "C10": {"fn": c10, "level": "fault_enumeration",
             "technique": "runtime monitoring under the race detector: offline exactly-once checker over recorded histories (send returns, client reads/writes with unique answer tokens, callbacks) of the real client multiplexer driven by a scripted hostile client with injected delays; every byte-offset cut of answer streams",
-            "text": "The real clientProcessRunner (runClient over runInProcess, real io.Pipe plumbing) is driven by 1-4 concurrent senders and a scripted client that reorders, omits, duplicates, garbles, truncates (after every byte offset), oversizes, stops reading, answers early, exits or stalls; the recorded history is checked for: exactly one callback per accepted request with the token of the client's first complete answer or an error, no callback for refused sends, refusal of late sends, isRunning()==false, termination within the progress bound, no data race. One scripted client kind emits garbage and keeps consuming its stdin, dying only some time after it was aborted, so that senders queued behind an in-progress write are still served.",
+            "text": "The real clientProcessRunner (runClient over runInProcess, real io.Pipe plumbing) is driven by 1-4 concurrent senders and a scripted client that reorders, omits, duplicates, garbles, truncates (after every byte offset), oversizes, stops reading, answers early, exits or stalls; the recorded history is checked for: exactly one callback per accepted request with the token of the client's first complete answer or an error, no callback for refused sends, refusal of late sends, isRunning()==false, termination within the progress bound, no data race. One scripted client kind emits garbage and keeps consuming its stdin, dying only some time after it was aborted, so that senders queued behind an in-progress write are still served. Further histories: a name handed to the client again after its earlier use completed (each use must get its own answer), and a quiet spell longer than the runner's 20 s read timeout followed by another request (refused, or answered with the client's own answer - never an error for a correctly answered request).",
             "note": "Interleavings are sampled (delays 0-2 ms inside the stdin reads and before answers, GOMAXPROCS 1/4/16 in thorough); stalled-client histories use the real 20 s timeout and are few.",
             "assumptions": ["progress bound 90 s = 3 x (20 s read timeout + 3 s wait + 5 s abort grace)"]},
     "C16": {"fn": c16, "level": "exploration",
             "technique": "runtime monitoring under the race detector: porcupine linearizability checking of recorded Init/Complete/Await/Clear histories (partitioned by test name) against a sequential slot model, exhaustive sequential operation orders with provably-blocked waiters, and an online exactly-once/prefix-closed monitor on builder completion",
-            "text": "Every operation order up to length 5 (thorough 6) over up to 3 names and 2 waiters is executed against the real Tracer with waiters that are provably blocked before the next operation; thousands of concurrent histories with unique completion ids are recorded at the API boundary and checked with porcupine; the real builder / TracingRoundTripper / TracingHandler are driven by racing producer goroutines and the Collector counts completions and inspects the delivered event list. Round trips include bodies closed by a second goroutine while the first still reads, and calls whose response streams carry 1 to 70000 messages (around 4096 and 8192 densely).",
+            "text": "Every operation order up to length 5 (thorough 6) over up to 3 names and 2 waiters is executed against the real Tracer with waiters that are provably blocked before the next operation; thousands of concurrent histories with unique completion ids are recorded at the API boundary and checked with porcupine; the real builder / TracingRoundTripper / TracingHandler are driven by racing producer goroutines and the Collector counts completions and inspects the delivered event list. Round trips include bodies closed by a second goroutine while the first still reads, and calls whose response streams carry 1 to 70000 messages (around 4096 and 8192 densely). Both consumers of completed traces are driven too: the runner's testResults.fetchTrace (a failing case whose trace was completed shows it in a report() that follows immediately) and the reference client's examineWireDetails waiter (live, cancelled and expired call contexts, late hand-over); client round trips include body-less responses under a context that stays live.",
             "note": "Waiters orphaned by Clear/Init while blocked are only required not to outlive their context and not to see a foreign trace; porcupine Unknown is inconclusive.",
             "assumptions": ["porcupine v1.3.0 is a correct linearizability checker", "time.Since on one process is a monotonic clock"]},
     "C20": {"fn": c20, "level": "exploration",
             "technique": "runtime monitoring: pool-protocol histories (connect-go's reset/close/reuse discipline) with injected corrupt and truncated streams on the real compressor/decompressor instances; independent use of each named algorithm as oracle; wire exchange with the real reference peers",
-            "text": "For each of the six encodings one pooled compressor and decompressor instance is driven through every history of length 4 over {valid, bit-flip, cut, garbage, empty, independent-encoder} (longer random ones in thorough), plus every single-bit flip and cut of short streams followed by a valid decode; every valid decode must be exact. Compressor output must be decodable by an independent implementation of the algorithm the name denotes - for the enum, the registered constructors, tracer.GetDecompressor (any letter case), the raw-payload encoder, and the real reference server on the wire. Compressor instances are additionally driven through histories with abandoned messages (Reset without Close), failing sinks and repeated Resets, and decompressors obtained from the wire tracer are used interleaved and concurrently (race detector) to show that every caller owns its instance.",
+            "text": "For each of the six encodings one pooled compressor and decompressor instance is driven through every history of length 4 over {valid, bit-flip, cut, garbage, empty, independent-encoder} (longer random ones in thorough), plus every single-bit flip and cut of short streams followed by a valid decode; every valid decode must be exact. Compressor output must be decodable by an independent implementation of the algorithm the name denotes - for the enum, the registered constructors, tracer.GetDecompressor (any letter case), the raw-payload encoder, and the real reference server on the wire. Compressor instances are additionally driven through histories with abandoned messages (Reset without Close), failing sinks and repeated Resets, and decompressors obtained from the wire tracer are used interleaved and concurrently (race detector) to show that every caller owns its instance. Several pooled decompressor instances are interleaved in one goroutine, multi-MiB messages are decoded by instances that were closed and parked before (from *bytes.Buffer and other sources), and the body tracer is shown a damaged compressed end-of-stream message followed by an intact one.",
             "note": "Corruption detection is not claimed (brotli/identity have no integrity check) - only that later valid input decodes correctly and nothing crashes.",
             "assumptions": ["stdlib gzip/zlib, andybalholm/brotli, klauspost/zstd and golang/snappy used directly are the meaning of the encoding names"]},
     "C18": {"fn": c18, "level": "exploration",
             "technique": "runtime monitoring: round-trip (inverse) laws evaluated on the real conversion functions and strict codecs over seeded random values and an exhaustive length<=2 slice for percent-encoding",
-            "text": "The exported conversion functions are executed on 10^4-10^6 generated errors (all codes, UTF-8 messages, details with canonical and deliberately non-canonical encodings), header lists (mixed case, repeated keys, binary keys), all byte strings of length <=2 plus random ones, and random conformance messages; the oracle is the inverse law of each pair, input immutability and rejection of unknown fields.",
+            "text": "The exported conversion functions are executed on 10^4-10^6 generated errors (all codes, UTF-8 messages, details with canonical and deliberately non-canonical encodings), header lists (mixed case, repeated keys, binary keys), all byte strings of length <=2 plus random ones, and random conformance messages; the oracle is the inverse law of each pair, input immutability and rejection of unknown fields. Codec checks include encodings held across later Marshal calls and decoding into destinations that already hold a message or just rejected one.",
             "note": "Detail type is compared by message name (the prefix before the last slash is a resolver convention); -bin values are generated as unpadded base64 (the form the protocol uses).",
             "assumptions": ["net/url.PathUnescape is standard percent-decoding"]},
     "C03": {"fn": c03, "level": "exploration",
             "technique": "runtime monitoring: metamorphic oracle over the real testResults.assert - echo and documented-leniency rewrites must keep the verdict, every single deviation at every position must fail and be named",
-            "text": "For hundreds to thousands of expected results (expanded corpus + synthetic shapes) the real assert is run on the exact echo, on each leniency-preserving rewrite alone and combined, and on every single deviation at every position (n-th payload, detail, header, value, echoed request); the recorded outcome and its text are the observation.",
+            "text": "For hundreds to thousands of expected results (expanded corpus + synthetic shapes) the real assert is run on the exact echo, on each leniency-preserving rewrite alone and combined, and on every single deviation at every position (n-th payload, detail, header, value, echoed request); the recorded outcome and its text are the observation. Values regrouped across the same number of physical values, empty list elements, deviations repeated on top of leniency-rewritten results, and merged metadata on stream types without the merge leniency are covered.",
             "note": "The relation 'leniency => same verdict, deviation => failure naming it' is the statement itself; an entirely absent query-parameter list is treated as the documented leniency of service.proto (server unable to report GET info); partially merged metadata is a deviation.",
             "assumptions": ["error text names a discrepancy when it contains the lower-cased header name, the 1-based position, or the class keyword"]},
     "C14": {"fn": c14, "level": "fault_enumeration",
             "technique": "runtime monitoring under the race detector: scripted reader/writer partitions and every truncation point through the real tracingReader / TracingHandler with a recording Collector; oracle = envelope event model + differential run without tracing",
-            "text": "Generated envelope sequences (all flag values, zero lengths, end-stream compressed or not in each of the six encodings, Connect/gRPC/gRPC-Web/non-stream content types) are pushed through the real tracing reader and response writer under seven partition plans and every cut/fail offset; the delivered Trace.Events are compared with an independent event model and the application-visible bytes, (n, err) results, status, headers and trailers with an untraced run. A close-race part reads a traced body to its end in one goroutine while another closes it: exactly one body-end event and one completion callback.",
+            "text": "Generated envelope sequences (all flag values, zero lengths, end-stream compressed or not in each of the six encodings, Connect/gRPC/gRPC-Web/non-stream content types) are pushed through the real tracing reader and response writer under seven partition plans and every cut/fail offset; the delivered Trace.Events are compared with an independent event model and the application-visible bytes, (n, err) results, status, headers and trailers with an untraced run. A close-race part reads a traced body to its end in one goroutine while another closes it: exactly one body-end event and one completion callback. The request as the traced handler sees it (method, URL, headers, content length, body) is compared with the untraced run, also for body-less GET requests, and reads after the end of a body or after Close must pass the inner reader's results through.",
             "note": "A cut exactly after a complete prefix is unconstrained (statement says part-way); an empty end-stream yields no content event; independent decompression uses the algorithm libraries directly.",
             "assumptions": ["envelope event model in harness/tracer/c14_body_test.go"]},
     "C09": {"fn": c09, "level": "fault_enumeration",
             "technique": "runtime monitoring under the race detector: scripted hostile reader (partition plans, every truncation offset, oversize prefixes, stall points) feeding the real ReadDelimitedMessage / StreamDecoders; oracle = framing model",
-            "text": "For each sampled message sequence every truncation offset of the byte stream is injected under seven partition plans (with data+EOF and (0,nil) reads), through the runner's ReadDelimitedMessage and both StreamDecoder variants; oversize prefixes must be rejected with <1MB allocated and only the prefix consumed; stall points must yield a timeout no earlier than configured that reports the exact progress. Fault enumeration is exhaustive over offsets per sequence; sequences are sampled. The writer side is covered by encoding messages of every serialized size 0..1200 and around each power of two up to 2^17 with WriteDelimitedMessage and both stream encoders and parsing the bytes back independently.",
+            "text": "For each sampled message sequence every truncation offset of the byte stream is injected under seven partition plans (with data+EOF and (0,nil) reads), through the runner's ReadDelimitedMessage and both StreamDecoder variants; oversize prefixes must be rejected with <1MB allocated and only the prefix consumed; stall points must yield a timeout no earlier than configured that reports the exact progress. Fault enumeration is exhaustive over offsets per sequence; sequences are sampled. The writer side is covered by encoding messages of every serialized size 0..1200 and around each power of two up to 2^17 with WriteDelimitedMessage and both stream encoders and parsing the bytes back independently. The reference client's own request loop (binary and -json) is driven through the same partition plans and cuts, and JSON/binary streams of up to 40 MiB (thorough 150 MiB) are read back completely.",
             "note": "protoDecoder has no configurable limit, so the before-allocating clause is checked on ReadDelimitedMessage only; stall upper bound is a watchdog (inconclusive), the lower bound and the progress text are verdicts.",
             "assumptions": ["time.After cannot fire early"]},
     "C12": {"fn": c12, "level": "exploration",
             "technique": "runtime monitoring: the real referenceServerChecks middleware and real reference servers (HTTP/1.1, h2c, TLS, mTLS) observed under the full expected x actual matrix and a timeout-grammar model (regular expression + big-integer conversion)",
-            "text": "Every realisable actual request shape is sent against every expected tuple (466k handler calls, exhaustive) and the feedback lines are compared with the set of differing aspects; timeout strings are enumerated exhaustively at the length/unit boundaries and sampled beyond, compared with a grammar + exact-conversion model; wire runs repeat the aspect check through real listeners with a plain HTTP client. The timeout really echoed by createRequestInfo is compared (not only the context value), and simultaneous repeated requests for one test case (2-8 goroutines behind a barrier, race detector on) must be numbered #2..#k exactly once each.",
+            "text": "Every realisable actual request shape is sent against every expected tuple (466k handler calls, exhaustive) and the feedback lines are compared with the set of differing aspects; timeout strings are enumerated exhaustively at the length/unit boundaries and sampled beyond, compared with a grammar + exact-conversion model; wire runs repeat the aspect check through real listeners with a plain HTTP client. The timeout really echoed by createRequestInfo is compared (not only the context value), and simultaneous repeated requests for one test case (2-8 goroutines behind a barrier, race detector on) must be numbered #2..#k exactly once each. Every expectation is also sent through the BidiStream procedure (the server presents HTTP/1.1 bidi requests as HTTP/2 to the RPC library) and, for a third of them, with HTTP request trailers; the real servers run with and without a wire tracer; test-case names contain percent signs, format verbs and colons.",
             "note": "Feedback lines are classified by the aspect keyword they contain; trusts net/http for HTTP/1.1/h2c/TLS transport.",
             "assumptions": ["feedback lines are attributed to aspects by keyword (http version, http method, protocol, codec, compression, tls/plain-text, client cert)"]},
     "C07": {"fn": c07, "level": "exploration",
             "technique": "runtime monitoring: reference-model monitor (independent selection/naming/population model) compared with the real newTestCaseLibrary/allPermutations/casesByServer on generated suite sets, repeated expansions and a second process",
-            "text": "newTestCaseLibrary is executed on thousands of generated suite sets x config-case sets x modes (each 5 times, and once more in a second process to vary map iteration order) and on the embedded corpus x shipped configs; an independent model decides existence, full name, request axes, TLS markers, default service/method, single server group, gRPC-peer applicability and marked names, and which suite sets must be rejected.",
+            "text": "newTestCaseLibrary is executed on thousands of generated suite sets x config-case sets x modes (each 5 times, and once more in a second process to vary map iteration order) and on the embedded corpus x shipped configs; an independent model decides existence, full name, request axes, TLS markers, default service/method, single server group, gRPC-peer applicability and marked names, and which suite sets must be rejected. The same parsed suite objects are expanded repeatedly with other configurations in between; relevance lists come in any order; twin suites share simple test names with the raw-ness of every case flipped; test names that recur in the suite name or an axis component are included.",
             "note": "Trusts harness/cc/model_library_test.go as the meaning of docs/authoring_test_cases.md; connectVersionMode is left unspecified; names that path.Join would rewrite are not generated here.",
             "assumptions": ["model_library_test.go is the specification of suite expansion"]},
     "C06": {"fn": c06, "level": "exploration",
             "technique": "runtime monitoring: reference-model monitor (declarative set comprehension) compared with the real parseConfig on a bounded-exhaustive feature slice and seeded random configs",
-            "text": "parseConfig is executed on every feature block of a 4.5M-config slice (thorough: complete, 16 shards; quick: 1/64 stratified) and on 60k-1.1M random configs with include/exclude entries; an independent comprehension of the documented semantics decides set equality, possibility of every returned case, and the must/may-error rule.",
+            "text": "parseConfig is executed on every feature block of a 4.5M-config slice (thorough: complete, 16 shards; quick: 1/64 stratified) and on 60k-1.1M random configs with include/exclude entries; an independent comprehension of the documented semantics decides set equality, possibility of every returned case, and the must/may-error rule. Feature lists are given in any order and with repeated elements.",
             "note": "Trusts the comprehension in harness/cc/model_config_test.go as the meaning of docs/configuring_and_running_tests.md; entries denoting the empty set may (but need not) be rejected; YAML syntax is protoyaml's business (inputs are protojson).",
             "assumptions": ["model_config_test.go is the specification of config expansion"]},
     "C08": {"fn": c08, "level": "exploration",
             "technique": "runtime monitoring: reference-model monitor (independent glob matcher) evaluated next to the real trie/filter/flag collection on bounded-exhaustive and seeded random inputs",
-            "text": "The real parsePatterns/matchPattern, testCaseFilter, tryMatchPatterns, run() ambiguity check and argsToPatterns are executed on every pattern set of a bounded alphabet (all single patterns of length<=4, all pairs of length<=3, sampled triples, random longer ones) and on every split of a pattern list across flags and @files; an independent 10-line glob model is the oracle. Exhaustive over the small slice where every matcher branch is reachable, sampled beyond.",
+            "text": "The real parsePatterns/matchPattern, testCaseFilter, tryMatchPatterns, run() ambiguity check and argsToPatterns are executed on every pattern set of a bounded alphabet (all single patterns of length<=4, all pairs of length<=3, sampled triples, random longer ones) and on every split of a pattern list across flags and @files; an independent 10-line glob model is the oracle. Exhaustive over the small slice where every matcher branch is reachable, sampled beyond. The real cobra binding (bind) is exercised with pattern values that contain commas, quotes, brackets and leading dashes: each flag's slice must equal the values given on the command line.",
             "note": "Trusts the glob model as the documented semantics; the trie's shadowing of lower-priority patterns in the unmatched report is counted but not a violation (statement is one-directional).",
             "assumptions": ["the 10-line recursive glob matcher in harness/cc/model_glob_test.go is the meaning of the documented pattern language"]},
 }
